@@ -221,6 +221,11 @@ func selectWorkloads(job Job) []*Workload {
 
 func runBatch(t *testing.T, job Job) {
 	ws := selectWorkloads(job)
+	if len(ws) == 0 && len(job.Variants) > 0 && vsimrt.RaceEnabled {
+		// an explicit --variant filter that names no workload of the -race share: nothing to run in this binary
+		emit("AGG", Agg{Kinds: map[string]int{}, Counts: map[string]int{}, PerVariant: map[string]int{}, Undecided: map[string]int{}})
+		return
+	}
 	if len(ws) == 0 {
 		emit("ERROR", map[string]string{"error": "no workload for " + job.Prop})
 		return
